@@ -402,6 +402,8 @@ class ImageBatch(DataTensor):
 
     def narrow(self: TImageBatch, dim: int, start: int, length: int) -> TImageBatch:
         r"""Narrow image batch along specified tensor dimension."""
+        if dim < 0:
+            dim += self.ndim
         data = self.tensor().narrow(dim, start, length)
         grid = self._grid
         if dim == 0:
@@ -1214,7 +1216,7 @@ class Image(DataTensor):
     def narrow(self: TImage, dim: int, start: int, length: int) -> TImage:
         r"""Narrow image along specified dimension."""
         batch = self.batch()
-        batch = batch.narrow(dim + 1, start, length)
+        batch = batch.narrow(dim + 1 if dim >= 0 else dim, start, length)
         return batch[0]
 
     def resize(
